@@ -2,8 +2,11 @@
 (***************************************************************************)
 (* Validation of recorded fits of the real code against Fit.tla (C08).     *)
 (*                                                                         *)
-(* One record = one fit object (FitImaging subclass with a given model     *)
-(* image) evaluated in one mode, every public quantity read once:          *)
+(* One "fit" record = one fit object (FitImaging subclass with a given     *)
+(* model image) evaluated in one mode, every public quantity read once;    *)
+(* its residual flux fraction map travels in a companion "rff" record      *)
+(* (same inputs, field rff in units of 1/840) so that the two call sites   *)
+(* are judged, and reported, separately:                                   *)
 (*   h, w, u        frame and linear indices of the unmasked cells         *)
 (*   mode           "slim"  (slim arrays, use_mask_in_fit off) or          *)
 (*                  "native" (native-stored arrays, use_mask_in_fit on;     *)
@@ -11,8 +14,7 @@
 (*   junk           which junk filling the masked cells carried (0 = none) *)
 (*   d, e, sky      integer data, noise exponents (sigma = 2^e), sky level *)
 (*   mk             "int": integer model m, maps abstracted exactly:       *)
-(*                     res, nres2 (x2), chi2map4 (x4), sn2 (x2), rff (x840),*)
-(*                     chi2q (x4);                                         *)
+(*                     res, nres2 (x2), chi2map4 (x4), sn2 (x2), chi2q (x4) *)
 (*                  "real": real model (mapped reconstruction); maps in    *)
 (*                     fixed point: m_fix, res_fix, chi2map_fix            *)
 (*   chi2_fix, rchi2_fix, nn_fix, ll_fix, fom_fix   round(value*LogScale)  *)
@@ -60,15 +62,18 @@ ScalarClauses(r) ==
 IntClauses(r) ==
     LET L == MapLen(r)
         ref == SlimEval(r.d, r.m, r.e, r.sky)
-    IN IF ~ (Len(r.res) = L /\ Len(r.nres2) = L /\ Len(r.chi2map4) = L /\ Len(r.sn2) = L /\ Len(r.rff) = L)
+    IN IF ~ (Len(r.res) = L /\ Len(r.nres2) = L /\ Len(r.chi2map4) = L /\ Len(r.sn2) = L)
        THEN << "maps-have-the-shape-of-the-data" >>
        ELSE Cl("residual-is-data-minus-model", r.res = Lay(r, ref.res))
          \o Cl("normalized-residual-is-residual-over-noise", r.nres2 = Lay(r, ref.nres2))
          \o Cl("chi-squared-map-is-squared-normalized-residual", r.chi2map4 = Lay(r, ref.chi2map4))
          \o Cl("chi-squared-sums-unmasked-pixels-only", r.chi2q = ref.chi2q /\ r.chi2_fix = ref.chi2q * (LogScale \div 4))
          \o Cl("signal-to-noise-is-data-over-noise-clipped-at-zero", OnU(r, r.sn2) = ref.sn2)
-         \o Cl("residual-flux-fraction-is-residual-over-data",
-               RffOk(OnU(r, r.rff), RffDen, r.d, r.m, r.sky) /\ MaskedZero(r, r.rff))
+
+RffClause == "residual-flux-fraction-is-residual-over-data"
+RffClauses(r) ==
+    IF Len(r.rff) # MapLen(r) THEN << "maps-have-the-shape-of-the-data" >>
+    ELSE Cl(RffClause, RffOk(OnU(r, r.rff), RffDen, r.d, r.m, r.sky) /\ MaskedZero(r, r.rff))
 
 RealClauses(r) ==
     LET L == MapLen(r) n == Len(r.u) IN
@@ -126,28 +131,30 @@ WellFormed(r) == /\ Len(r.d) = Len(r.u) /\ Len(r.e) = Len(r.u) /\ Len(r.u) > 0
                  /\ (r.mk = "int" => Len(r.m) = Len(r.u))
 
 Clauses(r) ==
-    IF r.api # "fit" THEN << "unknown-api" >>
+    IF r.api \notin {"fit", "rff"} THEN << "unknown-api" >>
     ELSE IF ~ WellFormed(r) THEN << "malformed-record" >>
     ELSE IF r.raised # "" THEN << "no-exception" >>
+    ELSE IF r.api = "rff" THEN RffClauses(r)
     ELSE (IF r.mk = "int" THEN IntClauses(r) ELSE RealClauses(r))
       \o ScalarClauses(r)
       \o (IF r.hasinv THEN InvClauses(r)
           ELSE Cl("figure-of-merit-is-likelihood-without-an-inversion", r.fom_fix = r.ll_fix))
 
-\* signature of the failing class: the quantity (first failing clause), the evaluation mode, and for
-\* inversions whether the object list mixes regularised and unregularised objects
-RffClause == "residual-flux-fraction-is-residual-over-data"
+\* signature of the failing class: the call site (residual_flux_fraction_map has its own records), else the
+\* quantity (first failing clause), the evaluation mode, and for inversions whether the object list mixes
+\* regularised and unregularised objects
 Sig(r, f) ==
-    LET g == SelectSeq(f, LAMBDA c : c # RffClause)
-    IN IF f = << RffClause >> THEN "residual_flux_fraction_map"
-       ELSE (IF Len(g) > 0 THEN g[1] ELSE "none") \o ":" \o r.mode
-            \o (IF r.hasinv THEN (IF AnyReg(r.inv.objs) /\ ~ AllReg(r.inv.objs) THEN ":MixedRegularization" ELSE ":inversion") ELSE "")
+    IF r.api = "rff" THEN "residual_flux_fraction_map"
+    ELSE f[1] \o ":" \o r.mode
+         \o (IF r.hasinv THEN (IF AnyReg(r.inv.objs) /\ ~ AllReg(r.inv.objs) THEN ":MixedRegularization" ELSE ":inversion") ELSE "")
 
 Want(r) ==
-    IF r.api = "fit" /\ WellFormed(r) /\ r.mk = "int"
+    IF r.api = "rff" /\ WellFormed(r)
+    THEN [rff_num |-> Residual(r.d, r.m, r.sky), rff_den |-> DataOf(r.d, r.sky), rff_unit_den |-> RffDen]
+    ELSE IF r.api = "fit" /\ WellFormed(r) /\ r.mk = "int"
     THEN LET ref == SlimEval(r.d, r.m, r.e, r.sky) IN
          [res |-> ref.res, nres2 |-> ref.nres2, chi2map4 |-> ref.chi2map4, chi2q |-> ref.chi2q, nn_fix |-> ref.nn,
-          sn2 |-> ref.sn2, rff_num |-> ref.rffnum, rff_den |-> ref.rffden]
+          sn2 |-> ref.sn2]
          @@ (IF r.hasinv /\ r.inv.lat /\ Len(RegIdx(r.inv.objs)) <= 4
                 /\ IsMatrix(r.inv.FH, TotalP(r.inv.objs), TotalP(r.inv.objs)) /\ IsMatrix(r.inv.H, TotalP(r.inv.objs), TotalP(r.inv.objs))
                 /\ NoOffM(r.inv.FH) /\ NoOffM(r.inv.H)
